@@ -776,6 +776,10 @@ def replay(prop_id, path):
         print("description:", json.dumps(mod.describe(case, obs), default=repr)[:2000])
     print("agree(model, implementation):", not ab, "  holds(property):", not hb, " errors:", errs)
     if hb:
+        kf = match_known(mod, case, obs, load_findings())
+        if kf:
+            print("KNOWN-FINDING: property=%s %s" % (mod.ID, kf["what"]))
+            return 0
         print("VIOLATION property=%s replay=%s" % (mod.ID, path))
         return 1
     if ab:
